@@ -222,6 +222,45 @@ def r_slice_to_array(text):
     return text, n
 
 
+def _receiver_start(masked, dot_idx):
+    """Start index of the postfix-expression receiver ending just before masked[dot_idx] == '.'"""
+    k = dot_idx - 1
+    depth = 0
+    while k >= 0:
+        ch = masked[k]
+        if ch in ')]}':
+            depth += 1
+        elif ch in '([{':
+            if depth == 0:
+                break
+            depth -= 1
+        elif depth == 0 and (ch in ',;=' or (ch == '>' and masked[k - 1] == '=')):
+            break
+        k -= 1
+    return k + 1
+
+
+def r_map_first(text):
+    """R11 (opt-in): `RECV.map(|(x, _)| x)` on a Result -> `vq_map_first(RECV)`.
+    Verus accepts only variables as closure parameters and gives an
+    unannotated closure no postcondition; `vq_map_first` is a VERIFIED prelude
+    function whose body is the definition of Result::map applied to the first
+    projection (match r { Ok(p) => Ok(p.0), Err(e) => Err(e) })."""
+    n = 0
+    while True:
+        masked = rustscan.mask(text)
+        m = re.search(r'\.\s*map\s*\(\s*\|\s*\(\s*(\w+)\s*,\s*_\s*\)\s*\|\s*\1\s*\)', masked)
+        if not m:
+            break
+        rs = _receiver_start(masked, m.start())
+        recv = text[rs:m.start()]
+        lead = len(recv) - len(recv.lstrip())
+        rep = recv[:lead] + 'vq_map_first(' + recv.strip() + ')'
+        text = _replace_spans(text, [(rs, m.end(), rep)])
+        n += 1
+    return text, n
+
+
 def r_eta_variant(text):
     """R10 (opt-in): `.map_err(Path::Variant)` -> `.map_err(|e| Path::Variant(e))`
     (eta-expansion; Verus does not accept a datatype constructor as a function value)."""
@@ -243,6 +282,7 @@ RULES = {
     'R7a': r_log,
     'R2c': r_slice_to_array,
     'R10': r_eta_variant,
+    'R11': r_map_first,
 }
 
 # Parametrised rules (id -> (regex, replacement, doc)); selected per unit with
@@ -253,6 +293,26 @@ REGEX_RULES = {
     'R5': (r'&(\w+)\[([^\[\]]+)\]', r'\1.label(\2)',
            'R5: `&name[i]` (Index<usize> for Name) -> name.label(i): same function'),
 }
+
+# rules of units thread_pool / zones_reload (RT*, RZ*) live in vq/rewrites_tz.py
+from . import rewrites_tz as _tz  # noqa: E402
+RULES.update(_tz.RULES)
+REGEX_RULES.update(_tz.REGEX_RULES)
+
+# rules of unit rdata (RD*) live in vq/rewrites_rdata.py
+from . import rewrites_rdata as _rd  # noqa: E402
+RULES.update(_rd.RULES)
+REGEX_RULES.update(_rd.REGEX_RULES)
+
+# rules of unit rrl (RL*) live in vq/rewrites_rrl.py
+from . import rewrites_rrl as _rl  # noqa: E402
+RULES.update(_rl.RULES)
+REGEX_RULES.update(_rl.REGEX_RULES)
+
+# rules of unit rdata_set (RS*) live in vq/rewrites_rdata_set.py
+from . import rewrites_rdata_set as _rs  # noqa: E402
+RULES.update(_rs.RULES)
+REGEX_RULES.update(_rs.REGEX_RULES)
 
 DEFAULT_RULES = ['R3a', 'R3b', 'R3c', 'R4', 'R2', 'R7a']
 
@@ -272,9 +332,32 @@ def apply(text, rule_ids):
     return text, fired
 
 
+EXTRA_DOC = {
+    'R12': 'R12: by-value `mut self` parameter -> `self` plus `let mut vq_self = self;` with the body using vq_self '
+           '(Verus does not support `mut self`; this is the definition of a mutable by-value binding)',
+}
+
+
 def describe(rid):
+    if rid in EXTRA_DOC:
+        return EXTRA_DOC[rid]
     if rid in RULES:
         return ' '.join((RULES[rid].__doc__ or '').split())
     if rid in REGEX_RULES:
         return REGEX_RULES[rid][2]
     return rid
+
+# rules of unit zone (ZN*) live in vq/rewrites_zone.py
+from . import rewrites_zone as _zn  # noqa: E402
+RULES.update(_zn.RULES)
+REGEX_RULES.update(_zn.REGEX_RULES)
+
+# rules of unit catalog (RC*) live in vq/rewrites_catalog.py
+from . import rewrites_catalog as _rc  # noqa: E402
+RULES.update(_rc.RULES)
+REGEX_RULES.update(_rc.REGEX_RULES)
+
+# rules of the writer units (RW*) live in vq/rewrites_writer.py
+from . import rewrites_writer as _rw  # noqa: E402
+RULES.update(_rw.RULES)
+REGEX_RULES.update(_rw.REGEX_RULES)
